@@ -236,7 +236,7 @@ func killOnce(kc KillCase) outcome {
 func scenarios(o *hx.Opts) []Scenario {
 	r := hx.NewRand(o.Seed*7919 + 3)
 	var out []Scenario
-	for _, n := range []string{"basic", "compact", "restore", "follow", "behind", "reopen"} {
+	for _, n := range []string{"basic", "compact", "restore", "follow", "behind", "reopen", "restorev3"} {
 		out = append(out, Scenario{Name: n, Seed: r.Uint64() % 1000000, Rounds: 2 + r.Intn(2)})
 	}
 	return out
@@ -274,7 +274,7 @@ func pickKills(o *hx.Opts, root string, rec *ptkill.Result, r *hx.Rand) []int {
 		ms = append(ms, k)
 	}
 	sort.Ints(ms)
-	capMust, nOther := 20, 8
+	capMust, nOther := 24, 10
 	for len(ms) > capMust {
 		i := r.Intn(len(ms))
 		ms = append(ms[:i], ms[i+1:]...)
@@ -439,7 +439,7 @@ func main() {
 	}
 	o := hx.ParseFlags("C03")
 	res := hx.NewResult(o, "c03: kill engine (ptrace supervisor, SIGKILL before the k-th mutating call) + restart oracle; recorded traces judged by Lean killOK")
-	res.Rule = "scenarios {basic, compact(+snapshot, retention), restore, follow, behind, reopen}; one case = (scenario, seed, rounds, k): the child is killed immediately before its k-th file-system-mutating call under the scenario root (openat O_CREAT/O_TRUNC, write*, ftruncate, rename*, unlink*, mkdir*, copy_file_range...), then restarted; quick: every rename/unlink on litestream-owned names with its neighbours (seeded cap 20 per scenario) + 8 seeded others per scenario; thorough: every k. non-trivial = the kill point was reached"
+	res.Rule = "scenarios {basic, compact(+snapshot, retention), restore, follow, behind, reopen, restorev3}; one case = (scenario, seed, rounds, k): the child is killed immediately before its k-th file-system-mutating call under the scenario root (openat O_CREAT/O_TRUNC, write*, ftruncate, rename*, unlink*, mkdir*, copy_file_range...), then restarted; quick: every rename/unlink on litestream-owned names with its neighbours (seeded cap 24 per scenario) + 10 seeded others per scenario; thorough: every k. non-trivial = the kill point was reached"
 	g := &engine{o: o, res: res}
 	if o.Replay != "" {
 		os.Exit(g.replay())
